@@ -97,7 +97,22 @@ func (p c14) run(c *core.Ctx) {
 		close(gate.all)
 	}
 	g.ShuffleOrders()
-	r := world.Build(sc, world.Options{})
+	// stateless (zero-size) closer components: distinct components although their addresses may coincide
+	var zero []any
+	var zeroNames []string
+	if c.Rng.Intn(3) == 0 {
+		all := []any{&world.ZeroCloserA{}, &world.ZeroCloserB{}, &world.ZeroCloserC{}}
+		names := []string{"zero-closer-a", "zero-closer-b", "zero-closer-c"}
+		k := 2 + c.Rng.Intn(2)
+		zero, zeroNames = all[:k], names[:k]
+	}
+	// a few cases hold the gates for seconds: Close must keep waiting however long a closer takes
+	hold := time.Duration(0)
+	if c.Index%200 == 199 && gate.expected > 0 {
+		hold = 4 * time.Second
+	}
+	r := world.Build(sc, world.Options{Extra: zero})
+	world.SetZeroLog(r.Log)
 	for _, k := range closers {
 		r.Nodes[k].Core().CloseFn = gate.fn
 	}
@@ -146,6 +161,9 @@ func (p c14) run(c *core.Ctx) {
 			} else {
 				runtime.Gosched()
 			}
+		}
+		if hold > 0 && !fellBack {
+			time.Sleep(hold) // every gated closer is inside its Close method and stays there for a while
 		}
 		for x, i := range relOrder {
 			name := sc.Nodes[closers[i]].DisplayName()
@@ -197,8 +215,16 @@ func (p c14) run(c *core.Ctx) {
 			finish = append(finish, e.who)
 		}
 	}
+	var allNames []string
 	for _, k := range closers {
-		name := sc.Nodes[k].DisplayName()
+		allNames = append(allNames, sc.Nodes[k].DisplayName())
+	}
+	allNames = append(allNames, zeroNames...)
+	if hold > 0 {
+		c.Count("cases_with_closers_held_for_seconds", 1)
+	}
+	c.Count("zero_size_closers", len(zeroNames))
+	for _, name := range allNames {
 		b, e := count(evs, "close-begin", name), count(evs, "close-end", name)
 		if b != 1 || e != 1 {
 			c.Fail("", fmt.Sprintf("immediately after App.Close returned, closer %s has begun %d time(s) and finished %d time(s) (closers=%d, failing=%d, instant=%d)", name, b, e, nc, failing, instant),
